@@ -111,6 +111,11 @@ data "aws_ami" "ubuntu" {
   }
 }
 
+# a label with a dot: its address renders like a longer address of another shape
+data "aws_ami" "ubuntu.id" {
+  most_recent = false
+}
+
 data "terraform_remote_state" "net" {
   backend = "s3"
   config = {
@@ -197,6 +202,7 @@ resource "aws_instance" "west" {
   for_each      = var.sizes
   ami           = "ami-123"
   instance_type = each.value.cores > 2 ? "t3.large" : each.key
+  depends_on    = [data.aws_ami.ubuntu.id]
   security_groups = var.enabled ? [local.prefix, "static", lower(var.region)] : []
   tags            = var.enabled ? { Name = local.prefix, Owner = "ops" } : {}
   dynamic "ebs_block_device" {
@@ -466,7 +472,7 @@ var configs = map[string]config{
 	// object keys in unusual literal spellings (parenthesised, conditional with a
 	// null result, escapes, keywords) in schema-known and unknown places
 	"tf-oddkeys": {
-		Root: map[string]string{"main.tf": "locals {\n  odd = {\n    (\"pk\") = 1\n    (true ? null : \"nk\") = 2\n    (false ? \"fk\" : null) = 3\n    \"e\\\"k\" = 4\n    true = 5\n    null = 6\n    plain = { (\"in\") = [1, { (true ? null : \"x\") = 2 }] }\n  }\n}\n\nresource \"aws_instance\" \"k\" {\n  ami           = \"a\"\n  instance_type = \"t\"\n  tags = {\n    (\"Name\") = \"n\"\n    (true ? null : \"Env\") = \"e\"\n    \"a\\\"b\" = \"q\"\n  }\n  cpu = {\n    (\"cores\") = 2\n    \"thr\\u0065ads\" = 4\n  }\n}\n"},
+		Root: map[string]string{"main.tf": "locals {\n  odd = {\n    (\"pk\") = 1\n    (true ? null : \"nk\") = 2\n    (false ? \"fk\" : null) = 3\n    \"e\\\"k\" = 4\n    true = 5\n    null = 6\n    plain = { (\"in\") = [1, { (true ? null : \"x\") = 2 }] }\n  }\n}\n\nresource \"aws_instance\" \"k\" {\n  ami           = \"a\"\n  instance_type = \"t\"\n  tags = {\n    (\"Name\") = \"n\"\n    (true ? null : \"Env\") = \"e\"\n    \"a\\\"b\" = \"q\"\n    (local.missing) = \"m\"\n    (nope()) = \"f\"\n    plain = \"p\"\n  }\n  cpu = {\n    (\"cores\") = 2\n    \"thr\\u0065ads\" = 4\n  }\n}\n"},
 	},
 	"tf-child-only": {
 		Root:  map[string]string{"main.tf": "module \"kid\" {\n  source = \"./child\"\n  name   = \"n\"\n}\n\noutput \"g\" {\n  value = module.kid.greeting\n}\n"},
